@@ -2,6 +2,8 @@
 package c16
 
 import (
+	"archive/zip"
+	"bytes"
 	"context"
 	"encoding/json"
 	"fmt"
@@ -52,6 +54,18 @@ func (v Version) write(raw afero.Fs, dir string) {
 		_ = afero.WriteFile(raw, filepath.Join(dir, name), []byte(body), 0o644)
 	}
 	_ = afero.WriteFile(raw, filepath.Join(dir, "VERSION"), []byte(fmt.Sprintf("%d", v.ID)), 0o644)
+	// files that exist under that name in this version only, and whose names match the cache's list of items to ignore
+	// (which concerns the listing of entries, not the content of a version)
+	_ = afero.WriteFile(raw, filepath.Join(dir, fmt.Sprintf("v%d.log", v.ID)), []byte(fmt.Sprintf("log of version %d", v.ID)), 0o644)
+	_ = afero.WriteFile(raw, filepath.Join(dir, "sub", fmt.Sprintf("trace-v%d.log", v.ID)), []byte("trace"), 0o644)
+	// a genuine archive inside the version: it is content like any other and must come back as the file it is
+	var zb bytes.Buffer
+	zw := zip.NewWriter(&zb)
+	w, _ := zw.Create(fmt.Sprintf("inside-v%d.txt", v.ID))
+	_, _ = w.Write([]byte(fmt.Sprintf("packed with version %d", v.ID)))
+	_ = zw.Close()
+	_ = raw.MkdirAll(filepath.Join(dir, "libs"), 0o755)
+	_ = afero.WriteFile(raw, filepath.Join(dir, "libs", "dep.jar"), zb.Bytes(), 0o644)
 }
 
 // identify tells which stored version (if any) the destination equals exactly.
@@ -113,7 +127,7 @@ func newEnv(backend string, kind string, versions []Version) *env {
 
 func (e *env) client(name string) (*fsx.Client, sharedcache.ISharedCacheRepository) {
 	cl, fs := e.box.NewClient(name)
-	cache, err := sharedcache.NewCache(e.kind, fs, &sharedcache.Configuration{RemoteStoragePath: e.remote, Timeout: 1500 * time.Millisecond})
+	cache, err := sharedcache.NewCache(e.kind, fs, &sharedcache.Configuration{RemoteStoragePath: e.remote, Timeout: 1500 * time.Millisecond, FilesystemItemsToIgnore: ".*\\.log,ignored"})
 	if err != nil {
 		panic(err)
 	}
@@ -149,6 +163,10 @@ type FaultCase struct {
 	Fault   string  `json:"fault"`              // error | short | revoke | silent (a write persists half yet reports success)
 	// AssertHashFault disables the exclusion of known finding C16-R19 (set by its replay only)
 	AssertHashFault bool `json:"assert_hash_fault,omitempty"`
+	// At names the operation to fail by what it is instead of by its index (replays only; K is then ignored):
+	// "hash-side-file-open" = the opening (for writing) of the remote .hash side file; "archive-write" = the first write of the
+	// package being built in the temporary directory (for a small tree: the flush of the whole archive when it is closed)
+	At string `json:"fault_at,omitempty"`
 }
 
 func isHashSideFile(op *fsx.Op, remote string) bool {
@@ -200,7 +218,20 @@ func checkFault(t ev.T, test string, c FaultCase) (skipped string) {
 		mu.Lock()
 		defer mu.Unlock()
 		n++
-		if n != c.K {
+		switch c.At {
+		case "":
+			if n != c.K {
+				return nil
+			}
+		case "hash-side-file-open":
+			if hit != nil || !isHashSideFile(op, e.remote) || op.Kind != "openfile" {
+				return nil
+			}
+		case "archive-write":
+			if hit != nil || op.Kind != "write" || !strings.HasSuffix(op.Path, "cache.zip") || strings.HasPrefix(op.Path, e.remote) {
+				return nil
+			}
+		default:
 			return nil
 		}
 		cp := *op
@@ -566,7 +597,9 @@ func checkSeq(t ev.T, test string, c SeqCase) {
 				stored = map[int]bool{}
 			}
 		case "fetch":
-			dest := e.box.Path(fmt.Sprintf("dest%d", i))
+			// every client fetches into its own working directory again and again: what an earlier Fetch installed there is
+			// still present when the next one begins
+			dest := e.box.Path(fmt.Sprintf("dest-of-client%d", op.Client))
 			err := cl.cache.Fetch(ctx, key, dest)
 			if err == nil {
 				id, detail := identify(e.box, dest, e.versions, e.sources)
